@@ -675,6 +675,8 @@ where
                                 return;
                             }
                             Err(VMInternalError::Pause) => {
+                                #[cfg(ckb_verif)]
+                                crate::verif::point("script::paused");
                                 // continue to wait for
                                 debug_assert!(
                                     scheduler.consumed_cycles() <= max_cycles,
